@@ -6,6 +6,7 @@ from cv.rules import events_of, order_after_success
 from props import common
 
 TITLE = "Every completed version keeps restoring to its own snapshot"
+TECHNIQUE = 'static analysis: MIR guard analysis by edge deletion (reuse of basis addresses), finite predicate enumeration of the unchanged-heuristic, arm table of band selection'
 EXPLANATION = (
     "The snapshot-isolation core quantifies over histories and is not decided. Decided are two structural "
     "necessary conditions: (1) the only statement that copies block addresses from the basis entry into a new "
